@@ -1367,3 +1367,95 @@ def lfi_trace(text, examples, iters=6, opts=None, seed=0):
         steps.append({"ll": float(ll), "w": weights()})
     return {"names": [str(n) for n in lfi.names], "groups": groups, "steps": steps,
             "nex": sum(len(e.n) if hasattr(e.n, "__len__") else 1 for e in lfi._compiled_examples), "model": lfi.get_model()}
+
+
+# ------------------------------------------------------------------ C29 structural histories (alphabet of ClauseDB.tla)
+def clausedb_history(cases):
+    """cases: [{'id', 'hist': [{'op': 'fact'|'rule'|'extend', 'd', 's', 'body', 'cid'}], 'every': bool}]
+    Executes the operations on real ClauseDB objects (database 1 = a prepared empty program) and records what every
+    database shows, navigating with find() / get_node() as the engine does."""
+    from problog.program import PrologString
+    from problog.engine import DefaultEngine
+    from problog.logic import Term, Clause, And
+    out = []
+    for c in cases:
+        r = {"id": c["id"]}
+        try:
+            dbs = [DefaultEngine().prepare(PrologString(""))]
+            parents = [0]
+            cid_of = {}                  # (owner db number, node index) -> clause id
+            preds = sorted({h["s"] for h in c["hist"] if h["s"]} | {b for h in c["hist"] for b in h["body"]})
+
+            def owner(d, idx):
+                # the database whose node list holds index idx when looked up from database number d
+                while True:
+                    db = dbs[d - 1]
+                    idx = db._resolve_index(idx)
+                    if idx < db._ClauseDB__offset and parents[d - 1] != 0:
+                        d = parents[d - 1]
+                    else:
+                        return d, idx
+
+            def cids(d, node):
+                if not node or type(node).__name__ != "define":
+                    return []
+                res = []
+                for ch in node.children:
+                    res.append(cid_of.get(owner(d, ch), -1))
+                return res
+
+            def snapshot(n):
+                views, calls = [], []
+                for d in range(1, len(dbs) + 1):
+                    db = dbs[d - 1]
+                    v, cl = [], []
+                    for s in preds:
+                        h = db.find(Term(s))
+                        node = db.get_node(h) if h is not None else None
+                        v.append({"s": s, "cids": cids(d, node)})
+                        if node and type(node).__name__ == "define":
+                            for ch in node.children:
+                                cn = db.get_node(ch)
+                                if type(cn).__name__ != "clause":
+                                    continue
+                                todo = [db.get_node(cn.child)]
+                                while todo:
+                                    b = todo.pop()
+                                    if type(b).__name__ == "call":
+                                        cl.append({"s": str(b.functor), "seen": cids(d, db.get_node(b.defnode))})
+                                    elif type(b).__name__ == "conj":
+                                        todo.extend(db.get_node(x) for x in b.children)
+                    views.append(v)
+                    calls.append(cl)
+                return {"n": n, "parents": list(parents), "views": views, "calls": calls}
+            snaps = []
+            for n, h in enumerate(c["hist"], start=1):
+                if h["op"] == "extend":
+                    dbs.append(dbs[h["d"] - 1].extend())
+                    parents.append(h["d"])
+                else:
+                    db = dbs[h["d"] - 1]
+                    before = len(db)
+                    if h["op"] == "fact":
+                        db += Term(h["s"])
+                    else:
+                        body = Term(h["body"][0]) if len(h["body"]) == 1 else And(Term(h["body"][0]), Term(h["body"][1]))
+                        db += Clause(Term(h["s"]), body)
+                    new = [i for i in range(before, len(db)) if type(db.get_node(i)).__name__ in ("fact", "clause")
+                           and db.get_node(i) and str(db.get_node(i).functor) == h["s"]]
+                    if len(new) != 1:
+                        raise RuntimeError("harness: cannot identify the node of clause %d (%s)" % (h["cid"], new))
+                    cid_of[(h["d"], new[0])] = h["cid"]
+                if c.get("every"):
+                    snaps.append(snapshot(n))
+            if not c.get("every"):
+                snaps.append(snapshot(len(c["hist"])))
+            r["snaps"] = snaps
+        except Exception as e:
+            from .pl import err_info
+            info = err_info(e)
+            r["crash"] = "%s: %s" % (info["error"], info["msg"])
+            r["error"] = info["error"]
+            r["site"] = info["site"]
+        out.append(r)
+    return {"results": out}
